@@ -61,7 +61,19 @@ CaseResult dyn_case(const RunCtx &ctx, TapeReader &t, unsigned size_hint) {
     unsigned kind = (unsigned) t.below(5); // 0 unsorted bulk, 1 bad base, 2 tombstone in insert, 3 tombstone in bulk, 4 range lo>hi
     size_t n_bulk = t.chance(1, 2) ? t.below(std::min<size_t>(U, 1200) + 1) : 0;
     size_t n_ops = t.below(size_hint < 30 ? 20 : 900);
-    size_t pos = t.below(1 << 20);         // position of the violation (reduced modulo the applicable length)
+    size_t pos = t.below(1 << 20);         // position of the violation (reduced modulo the applicable length) ...
+    static const unsigned posw[] = {3, 3, 1, 1, 8};
+    size_t pos_kind = t.weighted(posw);    // ... unless it is pinned to the first / last / second / last-but-one position
+    auto place = [&](size_t len) -> size_t {
+        if (len == 0) return 0;
+        switch (pos_kind) {
+            case 0: return 0;
+            case 1: return len - 1;
+            case 2: return std::min<size_t>(1, len - 1);
+            case 3: return len >= 2 ? len - 2 : 0;
+            default: return pos % len;
+        }
+    };
     unsigned bad_base = 3 + (unsigned) t.below(253);
     while ((bad_base & (bad_base - 1)) == 0) ++bad_base;
     SplitMix pr(t.bits(64));
@@ -97,11 +109,12 @@ CaseResult dyn_case(const RunCtx &ctx, TapeReader &t, unsigned size_hint) {
             res.discard = true;
             return res;
         }
-        size_t p = pos % (dist.size() - 1);
+        size_t p = place(dist.size() - 1);
         std::swap(dist[p], dist[p + 1]); // now dist[p].first > dist[p+1].first
         Thrown th = thrown_by([&] { Dyn d(dist.begin(), dist.end(), (uint8_t) base, (uint8_t) buffer_level, (uint8_t) index_level); }, what);
         expect(th, "bulk-load of " + std::to_string(dist.size()) + " pairs with an inversion at position " + std::to_string(p));
-        res.nontrivial = p > 0 && p + 2 < dist.size();
+        res.nontrivial = dist.size() >= 3;
+        if (p == 0) res.label("violation_at_first_position");
         return res;
     }
     if (kind == 1) {
@@ -118,11 +131,13 @@ CaseResult dyn_case(const RunCtx &ctx, TapeReader &t, unsigned size_hint) {
     if (kind == 3) {
         res.label("tombstone_in_bulk_load");
         if (bulk.empty()) bulk.emplace_back(uni[0], mkval(1));
-        size_t p = pos % bulk.size();
+        size_t p = place(bulk.size());
         bulk[p].second = tomb;
         Thrown th = thrown_by([&] { Dyn d(bulk.begin(), bulk.end(), (uint8_t) base, (uint8_t) buffer_level, (uint8_t) index_level); }, what);
         expect(th, "bulk-load of " + std::to_string(bulk.size()) + " pairs with the reserved mapped value at position " + std::to_string(p));
-        res.nontrivial = p > 0 && p + 1 < bulk.size();
+        res.nontrivial = bulk.size() >= 2;
+        if (p == 0) res.label("violation_at_first_position");
+        if (p + 1 == bulk.size()) res.label("violation_at_last_position");
         return res;
     }
     // kinds 2 and 4 need a live container with a history
@@ -180,6 +195,18 @@ CaseResult c_dyn_case(const RunCtx &ctx, TapeReader &t, unsigned size_hint, cons
     uni.erase(std::unique(uni.begin(), uni.end()), uni.end());
     bool unsorted = t.chance(1, 2);
     size_t pos = t.below(1 << 20);
+    static const unsigned posw[] = {3, 3, 1, 1, 8};
+    size_t pos_kind = t.weighted(posw);
+    auto place = [&](size_t len) -> size_t {
+        if (len == 0) return 0;
+        switch (pos_kind) {
+            case 0: return 0;
+            case 1: return len - 1;
+            case 2: return std::min<size_t>(1, len - 1);
+            case 3: return len >= 2 ? len - 2 : 0;
+            default: return pos % len;
+        }
+    };
     if (ctx.want_desc) {
         std::ostringstream d;
         d << name << " over " << uni.size() << " pairs, violation=" << (unsorted ? "inversion" : "reserved mapped value") << " at=" << pos << "\n";
@@ -194,10 +221,10 @@ CaseResult c_dyn_case(const RunCtx &ctx, TapeReader &t, unsigned size_hint, cons
             res.discard = true;
             return res;
         }
-        p = pos % (pairs.size() - 1);
+        p = place(pairs.size() - 1);
         std::swap(pairs[p], pairs[p + 1]);
     } else {
-        p = pos % pairs.size();
+        p = place(pairs.size());
         pairs[p].second = std::numeric_limits<T>::max();
     }
     res.label("c_dynamic_create");
@@ -210,7 +237,8 @@ CaseResult c_dyn_case(const RunCtx &ctx, TapeReader &t, unsigned size_hint, cons
         res.fail(std::string(name) + " returned a handle for " + std::to_string(pairs.size()) + " pairs with " + (unsorted ? "an inversion" : "the reserved mapped value") +
                  " at position " + std::to_string(p) + " (expected NULL)");
     }
-    res.nontrivial = p > 0 && p + 2 < pairs.size();
+    res.nontrivial = pairs.size() >= 3;
+    if (p == 0) res.label("violation_at_first_position");
     return res;
 }
 
